@@ -1,6 +1,7 @@
 package main
 
 import (
+	hexpkg "encoding/hex"
 	"fmt"
 	"math/big"
 	"time"
@@ -84,3 +85,5 @@ func fromValue(v ttlv.Value) (*tree.Item, error) {
 	}
 	return it, nil
 }
+
+func hexDecodeString(s string) ([]byte, error) { return hexpkg.DecodeString(s) }
